@@ -6,6 +6,8 @@ package main
 
 import (
 	"bufio"
+	"os"
+	"path/filepath"
 	"sort"
 	"strconv"
 
@@ -29,6 +31,20 @@ type c19case struct {
 	S      string   `json:"s"`      // kmap, c4
 	Reuse  bool     `json:"reuse"`  // c4: reuse buffer / table of the previous call
 	Refs   []string `json:"refs"`   // ksim: indexed reference sequences; S = query
+	// round 3
+	X         bool        `json:"x"`         // extra observations (c19r3.go)
+	MinW      int         `json:"minw"`      // dbg: FilterMinWeight threshold (0: skip)
+	LMax      int         `json:"lmax"`      // dbg: LongestPath(lmax)
+	Covs      []c19cov    `json:"covs"`      // dbg: LongestConsensus(min_cov = num / 2^e); cons: the first one is filter_out
+	Ham       [][2]string `json:"ham"`       // dbg: pairs of k-mers for HammingDistance
+	Probe     []string    `json:"probe"`     // dbg: Nexts / Previouses of these k-mers (panic outside the graph)
+	Gml       bool        `json:"gml"`       // dbg: Gml() + WriteGml; cons: save_graph
+	S2        string      `json:"s2"`        // c4: second sequence (Common4Mer)
+	MaxOcc    *int        `json:"maxocc"`    // ksim: maxoccurs (absent: -1)
+	MinShared *int        `json:"minshared"` // ksim: FilterMinCount (absent: 1)
+	Self      *int        `json:"self"`      // ksim: also query with the reference object of that number
+	ConsK     int         `json:"consk"`     // cons: kmer_size (0: -1, estimated by the tool)
+	Buf       bool        `json:"buf"`       // kmap: NormalizedKmerSlice with a caller-supplied buffer
 }
 
 type c19node struct {
@@ -69,6 +85,19 @@ type c19obs struct {
 	// ksim: obikmersim path: NewKmerMap[Uint128](refs, k, sparse, -1).Query(query) and .Query(rc query): match count per reference (-1: no match)
 	Match   []int `json:"match,omitempty"`
 	MatchRC []int `json:"matchrc,omitempty"`
+	// round 3 (c19r3.go)
+	X       *c19x   `json:"x,omitempty"`
+	C4X     *c19c4x `json:"c4x,omitempty"`
+	KsX     *c19ksx `json:"ksx,omitempty"`
+	BufSame bool    `json:"bufsame"`
+	KSizeFn int     `json:"ksizefn"`
+	IdxLen  int     `json:"idxlen"`
+	// cons with save_graph: the two files written
+	ConsLen   int    `json:"conslen"` // attribute obiconsensus_seq_length
+	ConsFGrph int    `json:"consfgraph"` // attribute obiconsensus_filtered_graph_size
+	SavedGml  string `json:"savedgml,omitempty"`
+	SavedFa   string `json:"savedfa,omitempty"`
+	ConsPanic bool   `json:"conspanic"`
 }
 
 func c19cons(c c19case) (o c19obs) {
@@ -79,7 +108,39 @@ func c19cons(c c19case) (o c19obs) {
 		bs.SetAttribute("count", s.Count) // as read from a file: the count attribute
 		seqs = append(seqs, bs)
 	}
-	seq, err := obiconsensus.BuildConsensus(seqs, "cons", -1, 0, false, "")
+	ksize := -1
+	if c.ConsK > 0 {
+		ksize = c.ConsK
+	}
+	filter := 0.0
+	if len(c.Covs) > 0 {
+		filter = float64(c.Covs[0].Num) / float64(uint64(1)<<uint(c.Covs[0].E))
+	}
+	dir := ""
+	if c.Gml {
+		if d, e := os.MkdirTemp("", "c19cons"); e == nil {
+			dir = filepath.Join(d, "graphs") // does not exist yet: BuildConsensus creates it
+			defer os.RemoveAll(d)
+		}
+	}
+	var seq *obiseq.BioSequence
+	var err error
+	func() {
+		defer func() {
+			if r := recover(); r != nil {
+				o.ConsPanic = true
+			}
+		}()
+		seq, err = obiconsensus.BuildConsensus(seqs, "cons", ksize, filter, c.Gml && dir != "", dir)
+	}()
+	if dir != "" {
+		if b, e := os.ReadFile(filepath.Join(dir, "cons_consensus.gml")); e == nil {
+			o.SavedGml = string(b)
+		}
+		if b, e := os.ReadFile(filepath.Join(dir, "cons_consensus.fasta")); e == nil {
+			o.SavedFa = string(b)
+		}
+	}
 	if err != nil || seq == nil {
 		o.ConsErr = true
 		if err != nil {
@@ -102,6 +163,12 @@ func c19cons(c c19case) (o c19obs) {
 	}
 	if v, ok := seq.GetIntAttribute("obiconsensus_kmer_max_occur"); ok {
 		o.ConsMaxW = v
+	}
+	if v, ok := seq.GetIntAttribute("obiconsensus_seq_length"); ok {
+		o.ConsLen = v
+	}
+	if v, ok := seq.GetIntAttribute("obiconsensus_filtered_graph_size"); ok {
+		o.ConsFGrph = v
 	}
 	return o
 }
@@ -142,6 +209,9 @@ func c19ksim(c c19case) (o c19obs) {
 	}
 	o.Match = one(c.S)
 	o.MatchRC = one(c19rc(c.S))
+	if c.X {
+		o.KsX = c19ksimx(c)
+	}
 	return o
 }
 
@@ -183,6 +253,9 @@ func c19dbg(c c19case) (o c19obs) {
 		o.PathSkipped = true
 		o.ConsErr = true
 		return o
+	}
+	if c.X {
+		defer func() { o.X = c19extras(c, g, keys, !o.HasCycle) }()
 	}
 	func() {
 		defer func() {
@@ -263,6 +336,9 @@ func c19kmap[T obifp.FPUint[T]](c c19case) (o c19obs) {
 		o.Kmers = append(o.Kmers, u64s(c19limbs(x)))
 		o.Strs = append(o.Strs, km.KmerAsString(x))
 	}
+	if c.Buf {
+		o.BufSame, o.KSizeFn, o.IdxLen = c19kmapbuf[T](c)
+	}
 	return o
 }
 
@@ -282,6 +358,9 @@ func c19c4(c c19case) (o c19obs) {
 		if t[i] != 0 {
 			o.Table = append(o.Table, [2]int{i, int(t[i])})
 		}
+	}
+	if c.X {
+		o.C4X = c19c4extras(c)
 	}
 	return o
 }
